@@ -136,6 +136,17 @@ def tsStep (r : Req) : Option String :=
      | .fails => none)
   else some ""
 
+def emptyChain : ChainInfo := { certs := [], sig := [], sigSelf := [] }
+
+/-- the chain the format-level `Sign` goes on with. JWS: the signing method refuses nil
+    certificates at once. COSE: a nil chain becomes an empty `x5chain` header and is only noticed
+    afterwards by the wrapper's `Content()` — after the timestamp authority was contacted -/
+def deliveredChain (fmt : Fmt) (s : Signer) : Option ChainInfo :=
+  match s.chain, fmt with
+  | some ci, _ => some ci
+  | none, .cose => some emptyChain
+  | none, .jws => none
+
 /-- everything up to (not including) the assignment of the new message to the format envelope:
     `validateSignRequest` of the wrapper, then the format-level `Sign` -/
 def prepare (fmt : Fmt) (r : Req) : Except Err Prepared :=
@@ -158,8 +169,8 @@ def prepare (fmt : Fmt) (r : Req) : Except Err Prepared :=
         else if fmt == .cose && !r.ctyOK then .error .invalidRequest
         else if !r.ext.all (·.encodable) then .error .invalidRequest
         else if !s.signs then .error .invalidRequest
-        else match s.chain with
-          | none => .error .invalidRequest                                    -- remote signer returned nil certificates
+        else match deliveredChain fmt s with
+          | none => .error .invalidRequest                                    -- remote signer returned nil certificates (JWS)
           | some ci =>
             match tsStep r with
             | none => .error .timestamp
